@@ -328,12 +328,16 @@ pub fn run(tier: &str) -> i32 {
         run_space(&Prec { max_instr: 2, host }, None, &caps, &rep);
     }
     run_space(&Lookups, None, &caps, &rep);
+    run_space(&AsTypePrec, None, &caps, &rep);
     rep.finish()
 }
 
 pub fn replay(f: &Failure) -> i32 {
     if f.space == "dedicated-vs-default-lookups" {
         return replay_space(&Lookups, f, "C05");
+    }
+    if f.space == "as_type-precedence" {
+        return replay_space(&AsTypePrec, f, "C05");
     }
     let inner = f.space.trim_start_matches("precedence(<=").trim_end_matches(')');
     let mut parts = inner.splitn(2, ',');
@@ -346,6 +350,81 @@ pub fn replay(f: &Failure) -> i32 {
 // dedicated-vs-default for every OTHER instruction that can be dedicated to a counterpart (type level, variant level,
 // and the member instructions outside the mapping menu).  Added after round-3 seeds C01-03, C02-03, C03-03, C05-03
 // (all four: "first default-or-dedicated instruction wins" instead of "dedicated first, default as fallback").
+
+/// `#[as_type(X)]` in the precedence chain (seed C05-11): it stands for a `from` instruction (From kinds) and an
+/// instruction that applies DIRECTLY to the Into and the IntoExisting kinds (infallible).  Scenarios x written order x
+/// owned / by-ref: which of {the cast, the competing expression `+ 7`} each impl must contain.
+pub struct AsTypePrec;
+
+pub struct ACase {
+    pub input: String,
+    /// (trait name, counterpart, must contain the cast?)
+    pub expect: Vec<(&'static str, &'static str, bool)>,
+    pub tags: Vec<String>,
+}
+
+/// (scenario, type-level instructions, as_type instruction, competing instruction, expectations)
+const AS_TYPE_SCENARIOS: &[(&str, &str, &str, &str, &[(&str, &str, bool)])] = &[
+    // dedicated cast vs default into_existing: at the exact-kind step the dedicated instruction wins for T, the default one for U
+    ("dedicated-cast-vs-default-existing", "#[into_existing(T)] #[into_existing(U)]", "#[o2o(as_type(T| i64))]", "#[into_existing(~ + 7)]", &[("IntoExisting", "T", true), ("IntoExisting", "U", false)]),
+    // default cast vs dedicated into_existing
+    ("default-cast-vs-dedicated-existing", "#[into_existing(T)] #[into_existing(U)]", "#[o2o(as_type(i64))]", "#[into_existing(U| ~ + 7)]", &[("IntoExisting", "T", true), ("IntoExisting", "U", false)]),
+    // fallible into_existing: no fallible instruction of that kind -> the infallible one of that kind (the cast) - before the `into` fallback
+    ("cast-vs-fallible-into", "#[try_into(T, Er)] #[try_into_existing(T, Er)]", "#[o2o(as_type(i64))]", "#[try_into(~ + 7)]", &[("TryInto", "T", false), ("TryIntoExisting", "T", true)]),
+    // an `into` instruction dedicated to T wins Into<T> only: IntoExisting<T> has an instruction of its own kind (the cast)
+    ("cast-vs-dedicated-into", "#[into(T)] #[into_existing(T)] #[into(U)] #[into_existing(U)]", "#[o2o(as_type(i64))]", "#[into(T| ~ + 7)]", &[("Into", "T", false), ("IntoExisting", "T", true), ("Into", "U", true), ("IntoExisting", "U", true)]),
+    // From side: a dedicated from instruction beats the default cast for T only
+    ("cast-vs-dedicated-from", "#[from(T)] #[from(U)]", "#[o2o(as_type(i64))]", "#[from(T| ~ + 7)]", &[("From", "T", false), ("From", "U", true)]),
+];
+
+impl Space for AsTypePrec {
+    type Case = ACase;
+    fn name(&self) -> String {
+        "as_type-precedence".into()
+    }
+    fn gen(&self, ctx: &mut Ctx) -> Option<ACase> {
+        let (name, ty, cast, other, expect) = AS_TYPE_SCENARIOS[ctx.choose(AS_TYPE_SCENARIOS.len())];
+        let cast_first = ctx.flag();
+        let tuple = ctx.flag();
+        let (a, b) = if cast_first { (cast, other) } else { (other, cast) };
+        let input = if tuple { format!("{} struct S({} {} i32, i32);", ty, a, b) } else { format!("{} struct S {{ {} {} a: i32, b: i32 }}", ty, a, b) };
+        Some(ACase { input, expect: expect.to_vec(), tags: vec![format!("scenario={}", name), format!("cast_first={}", cast_first), format!("tuple={}", tuple)] })
+    }
+    fn check(&self, c: ACase, choices: &[u32], rep: &Report) {
+        let space = self.name();
+        rep.eval(1);
+        rep.states.add_of(&c.input);
+        rep.nontrivial.add_of(&c.input);
+        let impls = match impls_of(&c.input) {
+            Ok(v) => v,
+            Err((kind, detail)) => {
+                rep.outputs.add_of(&detail);
+                rep.fail(fail(&space, choices, &c.input, &c.tags, &kind, detail));
+                return;
+            }
+        };
+        rep.validate(1);
+        let mut sig = vec![];
+        for (tr, cp, cast) in &c.expect {
+            let mine: Vec<&ImplIR> = impls.iter().filter(|i| i.trait_path.last().map_or(false, |t| t == tr) && i.trait_args.first().map(|a| a.trim_start_matches("& ") == *cp).unwrap_or(false)).collect();
+            if mine.len() != 2 {
+                rep.fail(fail(&space, choices, &c.input, &c.tags, "missing-impl", format!("expected the owned and the by-ref impl of {}<{}>, found {}", tr, cp, mine.len())));
+                continue;
+            }
+            for i in mine {
+                let has_cast = i.text.contains(" as i64") || i.text.contains(" as i32");
+                let has_other = i.text.contains("+ 7");
+                sig.push((*tr, *cp, has_cast, has_other));
+                if has_cast != *cast || has_other == *cast {
+                    let mut f = fail(&space, choices, &c.input, &c.tags, "wrong-winner", format!("`impl {}<{}> for {}` must use {} but contains: cast={} expression={}", tr, cp, i.self_ty, if *cast { "the #[as_type] cast" } else { "the competing expression `+ 7`" }, has_cast, has_other));
+                    f.observed = trunc(&i.text, 600);
+                    rep.fail(f);
+                }
+            }
+        }
+        rep.outputs.add_of(&sig);
+    }
+}
 
 pub struct Lookups;
 
